@@ -1062,6 +1062,35 @@ def parse_traces(text):
     return res
 
 
+def reentrant_logger_pass(prop, binary, driver, cases):
+    """C20 only, REAL traces only (the model has no re-entrant logger): the same programs with a logger that allocates a
+    LogID of its own while it handles an Open record.  The C20 monitor needs fresh increasing ids, not consecutive ones,
+    so it must still hold.  -> list of (name, prog) on which it is false."""
+    import concurrent.futures as cf
+    os.makedirs(WORK, exist_ok=True)
+    shards = chunks(cases, vlib.NCPU)
+    bad = []
+
+    def one(idx, shard):
+        cf_ = os.path.join(WORK, "reenter-%d-%d.cases" % (os.getpid(), idx))
+        with open(cf_, "w") as f:
+            for name, prog in shard:
+                f.write(ser_case(name, prog))
+        _, real = run_real(binary, cf_, timeout=240, env={"VERIF_LOGGER_REENTER": "1"})
+        tf = cf_[:-6] + ".real"
+        with open(tf, "w") as f:
+            f.write(real)
+        _, mon = run_monitors(driver, tf)
+        rm = parse_traces(mon)
+        rt = parse_traces(real)
+        return [(n, p) for n, p in shard if rt.get(n) and rt[n]["status"] == "done" and (rm.get(n) or {}).get("mon", {}).get(prop) is False]
+
+    with cf.ThreadPoolExecutor(max_workers=vlib.NCPU) as ex:
+        for r in ex.map(lambda a: one(*a), list(enumerate(shards))):
+            bad += r
+    return bad
+
+
 def run_real(binary, cases_file, timeout=240, env=None):
     rc, out = vlib.run([binary, cases_file], timeout=timeout, env=env)
     return rc, out
@@ -1697,6 +1726,21 @@ def run(prop, tier, seed):
         for name, prog, rep in san_found[:2]:
             path = save_replay(prop, "asan_%s" % name, prog, "sanitizer report: " + rep.replace("\n", " | ")[:800])
             violations.append(("mon", name, path, "AddressSanitizer/LeakSanitizer report"))
+    # --- C20: the same programs once more on the REAL crate with a logger that re-enters Core (allocates a LogID while
+    # it handles an Open record); the model has no such logger, so this pass judges the real traces with the C20 monitor only
+    reenter_info = None
+    if prop == "C20" and okm and okh:
+        rcases = []
+        for bname, cases, res, summ in batches:
+            rcases += [(n, p) for n, p in cases if res[n].get("verdict") == "ok" and res[n]["realmon"].get(prop) is True]
+        rcases = rcases[:(3000 if tier == "quick" else 20000)]
+        bad = reentrant_logger_pass(prop, binary, driver, rcases)
+        reenter_info = {"cases": len(rcases), "monitor_false": len(bad)}
+        for name, prog in bad[:1]:
+            path = save_replay(prop, "reenter_%s" % name, prog,
+                               "mon: C20_ok is false on the REAL trace when the logger allocates a LogID inside its callback "
+                               "(run harness/r with VERIF_LOGGER_REENTER=1); the same program passes with a passive logger")
+            violations.append(("mon", name, path, "re-entrant logger"))
     # --- verdict
     known = findings_for(prop)
     for fid, f in sorted(known.items()):
@@ -1741,7 +1785,7 @@ def run(prop, tier, seed):
         skipped_ambiguous_timer_order=summ_all["ambig"], model_out_of_fuel=summ_all["fuel"],
         excluded_defer_after_last_stakker_drop=summ_all.get("excluded_defer_after_drop", 0),
         known_finding_cases=dict((k, len(v)) for k, v in known_seen.items()),
-        sanitizer=san_info,
+        sanitizer=san_info, reentrant_logger_pass=reenter_info,
         theorem=CLAIM[prop]["proved"], theorem_is_partial=CLAIM[prop]["partial"], not_proved=CLAIM[prop]["missing"],
         problems=problems, violations_detail=[dict(kind=k, case=n, replay=p, detail=d) for k, n, p, d in violations][:10],
     ))
